@@ -202,6 +202,23 @@ def cases(tier):
                         "vint": True})
             out.append({"n": n, "bits": bits, "edges": edges, "letters": [0.0, 7.0, -612.0], "Ts": [273.15], "forms": forms[:1],
                         "eint": True, "vint": bits % 2 == 0})
+    # larger structured patterns (ring, star, 6 x 10 lattice, two components + isolated cells): one case each
+    def _big(name, n, edges):
+        out.append({"n": n, "bits": name, "edges": [list(e) for e in edges], "letters": [BIGE[name]], "Ts": [273.15, 150.0],
+                    "forms": ["csr/csr", "coo/csr"], "no_reuse": True})
+    BIGE = {}
+    ring = [(i, (i + 1) % 60) for i in range(60)]
+    ring = [(min(a, b), max(a, b)) for a, b in ring]
+    BIGE["ring60"] = [float((i * 37) % 23) - 7.5 + (650.0 if i == 30 else 0.0) for i in range(60)]
+    _big("ring60", 60, ring)
+    BIGE["star40"] = [float(i % 5) * 3.3 - (200.0 if i == 0 else 0.0) for i in range(40)]
+    _big("star40", 40, [(0, i) for i in range(1, 40)])
+    lat = [(r * 10 + c, r * 10 + c + 1) for r in range(6) for c in range(9)] + [(r * 10 + c, (r + 1) * 10 + c) for r in range(5) for c in range(10)]
+    BIGE["lattice60"] = [2.0 * ((i % 10) - 4.5) ** 2 - 10.0 * (i // 10) for i in range(60)]
+    _big("lattice60", 60, lat)
+    two = [(i, i + 1) for i in range(0, 19)] + [(i, i + 1) for i in range(25, 44)] + [(25, 44)]
+    BIGE["components50"] = [float((i * 7) % 11) for i in range(50)]
+    _big("components50", 50, two)
     if tier == "thorough":
         for bits, edges in patterns(5):
             out.append({"n": 5, "bits": bits, "edges": edges, "letters": [0.0, 612.5, -3.7], "Ts": [273.15, 310.0],
